@@ -24,7 +24,7 @@ from . import C01 as P1
 PID = "C02"
 COQ_HEADER = ("From Coq Require Import List NArith ZArith.\nFrom SK Require Import lib.Tok lib.LGraph model.C01_Model model.C02_Model.\n"
               "Import ListNotations.\nOpen Scope Z_scope.\n")
-SHARD = 430
+SHARD = 450
 IMPL_TIMEOUT = 1500
 COQ_TIMEOUT = 900
 RULE = ("ITS graphs (synthetic, ITSGraph of synthetic pairs with and without ignore_aromaticity/balance_its, rsmi_to_its of corpus reactions and "
@@ -127,8 +127,29 @@ RADII = (0, 1, 2, 3)
 OPTS = ((False, False), (False, True), (True, False), (True, True))     # (disconnected, keep_mtg), order of run_opts
 
 
+def _rename_edges(G, old, new):
+    for _, _, d in G.edges(data=True):
+        for a, b in zip(old, new):
+            if a in d:
+                d[b] = d.pop(a)
+    return G
+
+
 def impl_x(case):
     from synkit.Graph.ITS.its_decompose import get_rc
+    if case.get("rne"):
+        from synkit.Graph.Context.radius_expand import RadiusExpand
+        return X.obs_xits(RadiusExpand.remove_normal_edges(E.to_nx(case["X"]), "is_mtg"))
+    if case.get("alt"):
+        # bond_key / standard_key other than the defaults: the same graph with the two edge attributes renamed
+        out = []
+        for disc, keep in OPTS:
+            I = _rename_edges(E.to_nx(case["X"]), ("order", "standard_order"), ("bo", "so"))
+            rc = get_rc(I, list(case["keys"]), "bo", "so", disc, keep)
+            rc2 = get_rc(rc, element_key=list(case["keys"]), standard_key="so", bond_key="bo", keep_mtg=keep, disconnected=disc)
+            out.append([X.obs_xits(_rename_edges(rc, ("bo", "so"), ("order", "standard_order"))),
+                        X.obs_xits(_rename_edges(rc2, ("bo", "so"), ("order", "standard_order")))])
+        return out
     out = []
     for disc, keep in OPTS:
         I = E.to_nx(case["X"])
@@ -268,6 +289,8 @@ def coq_case(case):
             return "txits (get_rc_x K_default %s false (emb (its_construct_ab false %s %s %s)))" % (E.cb(case["disc"]), E.cb(case["bal"]), lg, lh)
         if case.get("raw"):
             return None
+        if "X" in case and case.get("rne"):
+            return "txits (remove_normal_mtg %s)" % X.coq_xits(case["X"])
         if "X" in case:
             return "run_opts %s %s" % (X.coq_keys(case["keys"]), X.coq_xits(case["X"]))
         if "Is" in case:
@@ -484,6 +507,27 @@ def _attrs_eq(got, want):
 
 def oracle_x(case):
     from synkit.Graph.ITS.its_decompose import get_rc
+    if case.get("rne"):
+        from synkit.Graph.Context.radius_expand import RadiusExpand
+        I = E.to_nx(case["X"])
+        R_ = RadiusExpand.remove_normal_edges(I, "is_mtg")
+        want = {frozenset((u, v)) for u, v, d in I.edges(data=True) if d.get("is_mtg", 1) != 0}
+        if set(R_.nodes) != set(I.nodes) or {frozenset(e) for e in R_.edges} != want or not HS.graph_eq(I, E.to_nx(case["X"])):
+            return [dict(clause="helper-remove-normal-edges", detail="remove_normal_edges(I, 'is_mtg') keeps %r, expected the bonds whose is_mtg is absent or True %r"
+                         % (sorted(map(sorted, R_.edges)), sorted(map(sorted, want))))]
+        return []
+    if case.get("alt"):
+        fails = []
+        for disc, keep in OPTS:
+            I = _rename_edges(E.to_nx(case["X"]), ("order", "standard_order"), ("bo", "so"))
+            rc = _rename_edges(get_rc(I, list(case["keys"]), "bo", "so", disc, keep), ("bo", "so"), ("order", "standard_order"))
+            bonds, atoms = ref_centre(E.to_nx(case["X"]), list(case["keys"]), disc, keep)
+            got = {frozenset((u, v)): (tuple(d.get("order", ())), d.get("standard_order"), d.get("is_mtg", "<absent>")) for u, v, d in rc.edges(data=True)}
+            if got != bonds or set(rc.nodes) != set(atoms):
+                fails.append(dict(clause="opt-bond-key-standard-key", detail="bond_key='bo', standard_key='so', disconnected=%s keep_mtg=%s: bonds %r atoms %r, expected %r %r"
+                                  % (disc, keep, sorted(map(sorted, got)), sorted(rc.nodes), sorted(map(sorted, bonds)), sorted(atoms))))
+                break
+        return fails
     fails = []
     keys = list(case["keys"])
     base = None
@@ -683,13 +727,13 @@ def oracle_hist(case):
             continue
         V = E.to_nx(g)
         cls = its_class(V)
-        if cls is None or st[0] not in ("rc", "k", "hk", "ctx", "ctx2", "list") or (st[0] != "rc" and st[1] < 0):
+        if cls is None or st[0] not in ("rc", "k", "hk", "ctx", "ctx2", "list", "list2") or (st[0] != "rc" and st[1] is not None and st[1] < 0):
             continue
         el = {n: d["element"] for n, d in V.nodes(data=True)}
         bonds = {frozenset((u, v)) for u, v, d in V.edges(data=True) if differs(d["order"], cls) or (el[u] == "H" and el[v] == "H")}
         centre = {x for b in bonds for x in b}
         ret, _o = HS.run_query(I, st)
-        k = 0 if st[0] == "rc" else st[1]
+        k = 0 if (st[0] == "rc" or st[1] is None) else st[1]
         want = _ball(V, centre, k)
         for r in ret:
             if set(r.nodes) != want:
@@ -799,6 +843,8 @@ def nontrivial(case, obs):
         return isinstance(obs, list) and len(obs) >= 2 and any(o != obs[0] for o in obs[1:])
     if "wrap" in case or case.get("raw"):
         return isinstance(obs, list) and len(obs) > 0
+    if "X" in case and case.get("rne"):
+        return True
     if "X" in case:
         # some option changes the centre
         return isinstance(obs, list) and len(obs) == 4 and any(o != obs[0] for o in obs[1:])
@@ -828,7 +874,7 @@ def distribution(cases, obss):
         if "wrap" in c or c.get("raw"):
             continue
         if "X" in c:
-            if isinstance(o, list) and len(o) == 4:
+            if isinstance(o, list) and len(o) == 4 and not c.get("rne"):
                 opt_eff["keep_mtg"] += o[1] != o[0]
                 opt_eff["disconnected"] += o[2] != o[0]
                 opt_eff["both_differ_from_each"] += o[3] != o[1] and o[3] != o[2]
@@ -1046,6 +1092,10 @@ def gen_options(rng, tier):
             cases.append(dict(kind="x-exh-keys", X=g, keys=list(rng.choice(X.KEY_CHOICES[1:]))))
     for _ in range(500 if tier == "quick" else 4000):
         cases.append(dict(kind="x-rand", X=X.rand_x(rng, rng.randint(2, 9)), keys=list(rng.choice(X.KEY_CHOICES))))
+    for _ in range(40 if tier == "quick" else 400):
+        cases.append(dict(kind="x-altkeys", X=X.rand_x(rng, rng.randint(2, 8)), keys=list(rng.choice(X.KEY_CHOICES)), alt=True))
+    for _ in range(40 if tier == "quick" else 400):
+        cases.append(dict(kind="x-rne", X=X.rand_x(rng, rng.randint(2, 8)), keys=[], rne=True))
     return cases
 
 
